@@ -270,6 +270,15 @@ def h_offer_answer(ctx, noffer, nanswer, data, policies=(0, 0), followup=None):
             for t in a.getTransceivers():
                 peer = [u for u in b.getTransceivers() if u.mid == t.mid]
                 ctx.check(len(peer) == 1 and peer[0].currentDirection == pc.reverse_direction(t.currentDirection), "followup-current-directions-complementary")
+
+            def ice_roles(p_):
+                ts = [t.sender.transport.transport for t in p_.getTransceivers()]
+                if p_.sctp is not None:
+                    ts.append(p_.sctp.transport.transport)
+                return {t.role for t in ts}
+
+            ra, rb = ice_roles(a), ice_roles(b)
+            ctx.check(len(ra) == 1 and len(rb) == 1 and ra != rb, "followup-ice-roles-stay-complementary", "%s vs %s" % (sorted(ra), sorted(rb)))
     finally:
         try:
             for p in (a, b):
